@@ -275,3 +275,48 @@ example : InAdvertised ⟨-300, -41, 61, 290⟩ 61 ∧ ¬ InAdvertised ⟨-300, 
 
 example : (pairsRaw (C17_example.map (·.toRaw))).toOption.map (fun ps => getBounds (plain ps))
     = some ⟨-300, -40, 60, 290⟩ := by decide +kernel
+
+
+/-! ### the streamed bounds are the bounds of the latest data -/
+
+/-- Whatever sequence of samples arrived (drifts of any size, repeats, one component changing while the others stay):
+once `_send_on_update` has woken up after the last sample, the streamed value is the calculation on the LATEST data —
+provided (re-established from the source on every run) that a sample triggers a recalculation iff it differs from
+the cached one and that `ComponentMetricsData.__eq__` is exact equality of the stored values.  With `recalc :=
+advertisedRaw`, every C17 theorem above therefore applies to the streamed bounds and the latest component data. -/
+theorem C17_stream_is_latest {α β : Type} [DecidableEq α] (recalc : α → β) (s : PoolStream α β)
+    (h0 : s.pending = false → s.streamed = recalc s.cached) (es : List (PoolStreamEv α)) :
+    Extracted.Pool.metricsEqIsDataEq = true ∧ Extracted.Pool.updateIffChanged = true ∧
+    ((PoolStream.run recalc s es).pending = false → (PoolStream.run recalc s es).streamed = recalc (PoolStream.run recalc s es).cached) ∧
+    (PoolStream.run recalc s (es ++ [.wake])).streamed = recalc (PoolStream.run recalc s (es ++ [.wake])).cached := by
+  have inv : ∀ (es : List (PoolStreamEv α)) (s : PoolStream α β), (s.pending = false → s.streamed = recalc s.cached) →
+      ((PoolStream.run recalc s es).pending = false → (PoolStream.run recalc s es).streamed = recalc (PoolStream.run recalc s es).cached) := by
+    intro es
+    induction es with
+    | nil => intro s h; simpa [PoolStream.run] using h
+    | cons e es ih =>
+      intro s h
+      simp only [PoolStream.run, List.foldl_cons]
+      apply ih
+      cases e with
+      | sample d =>
+        simp only [PoolStream.step]
+        intro hp
+        simp only [Bool.or_eq_false_iff, decide_eq_false_iff_not, ne_eq, Classical.not_not] at hp
+        rw [hp.2]; exact h hp.1
+      | wake =>
+        simp only [PoolStream.step]
+        by_cases hp : s.pending = true
+        · simp [hp]
+        · simp only [hp]; intro _; exact h (by simpa using hp)
+  refine ⟨rfl, rfl, inv es s h0, ?_⟩
+  have h1 := inv es s h0
+  simp only [PoolStream.run, List.foldl_append, List.foldl_cons, List.foldl_nil] at h1 ⊢
+  simp only [PoolStream.step]
+  by_cases hp : (List.foldl (PoolStream.step recalc) s es).pending = true
+  · simp [hp]
+  · simp only [hp]; exact h1 (by simpa using hp)
+
+/-- non-vacuity: a drift in three small steps and a repeat; after the wake-up the stream shows the last value. -/
+example : (PoolStream.run (fun (x : Nat) => x + 1) ⟨800, false, 801⟩
+    [.sample 799, .sample 798, .sample 798, .sample 797, .wake]).streamed = 798 := by decide
